@@ -840,6 +840,12 @@ func TestVerifC11Mux(t *testing.T) {
 				t.Fatal(err)
 			}
 			out.Emit(vfCase{ID: sc.ID, Src: sc.Src, Grp: "restart", In: in, Obs: c11RunRestart(in)})
+		case "storm":
+			var in c11StormIn
+			if err := json.Unmarshal(sc.In, &in); err != nil {
+				t.Fatal(err)
+			}
+			out.Emit(vfCase{ID: sc.ID, Src: sc.Src, Grp: "storm", In: in, Obs: c11RunStorm(in)})
 		}
 	}
 	if vfReplayOnly() {
@@ -855,6 +861,12 @@ func TestVerifC11Mux(t *testing.T) {
 	thorough := vfTier() == "thorough"
 	for i := 0; i < n; i++ {
 		r := root.Fork(i)
+		if i%20 == 13 {
+			// an update storm behind a busy event loop (more updates than the event queue holds)
+			in := c11StormIn{K: r.PickInt(11, 12, 12, 15, 25, 3), Restart: adv || r.Chance(5, 6)}
+			out.Emit(vfCase{ID: fmt.Sprintf("%s-storm-%d", src, i), Src: src, Grp: "storm", In: in, Obs: c11RunStorm(in)})
+			continue
+		}
 		if i%10 == 4 || i%10 == 7 {
 			// one case in eight holds a real keep-alive connection across the reload
 			in := c11GenRestart(r, i%40 == 4, adv)
